@@ -51,14 +51,21 @@ Theorem C09_local_any_timestamps : forall (now now' : Z) (cs : list (Z * cmd)) (
 Proof. exact agree_local_any_timestamps. Qed.
 Print Assumptions C09_local_any_timestamps.
 
-(* (4c) under wait_compact the increasing-timestamp hypothesis can not be dropped: HSETNX k a 1; HCLEAR k;
-   HSETNX k b 1 all at ts 5 leave HLEN 1 with two fields in HKEYS (the generation of a re-created collection is its
-   creation timestamp; open finding of C10, replayed on the Go code with one multi-request list) *)
+(* (4c) under wait_compact the increasing-timestamp hypothesis can not be dropped: HSET k a 1; HEXPIRE k 0; HSET k b 1
+   all at ts 5 s leave HLEN 1 with two fields in HKEYS (the hash expired in the second of its creation is renewed
+   with the generation it already had; open finding of C10).  The clear variant reported in round 1 (HSETNX; HCLEAR;
+   HSETNX at one timestamp) is repaired in /repo (1dcd66e) and in the model: C09_equal_timestamps_clear_repaired *)
 Theorem C09_equal_timestamps_refuted :
   let c := x_r (alook (x0 empty_coll) k_ts (m_hash (map_run true 0 equal_ts_hash m_init))) in
   Map.hlen k_ts c = RInt 1 /\ Map.hkeys k_ts c = rbulks [b_a; b_b].
 Proof. exact equal_ts_breaks_agree. Qed.
 Print Assumptions C09_equal_timestamps_refuted.
+
+Theorem C09_equal_timestamps_clear_repaired :
+  let c := x_r (alook (x0 empty_coll) k_ts (m_hash (map_run true 0 equal_ts_clear m_init))) in
+  Map.hlen k_ts c = RInt 1 /\ Map.hkeys k_ts c = rbulks [b_b].
+Proof. exact equal_ts_clear_ok. Qed.
+Print Assumptions C09_equal_timestamps_clear_repaired.
 
 (* (5) refuted on the code as it was before the fix commits (definitions of Data/PreFix.v): a member, field
        or score pair repeated inside one SADD / SREM / HMSET / HDEL / ZADD / ZREM, a ZINCRBY that leaves the
